@@ -141,6 +141,62 @@ func c25(r *core.Run) {
 		r.Undecided("R4.retarget", "stdlib", "no function both records and unrecords a storage capability controller")
 	}
 	r.Floor("R4.retarget", 1)
+
+	// R5 a retargeted controller is written back: the controller value lives in the account's capability-controller storage
+	// map; assigning its TargetPath in memory does not mark the containing slab as changed, so the closure installed by
+	// newStorageCapabilityControllerSetTargetFunction must assign the new target and then WriteStored the controller on
+	// every returning path (otherwise the new target is lost on commit while the path index is updated)
+	if top := mustFn(r, "R5.persist", "stdlib", "", "newStorageCapabilityControllerSetTargetFunction"); top != nil {
+		if len(top.AnonFuncs) != 1 {
+			r.Undecided("R5.persist", core.SSAKey(top), "expected one function literal")
+		} else {
+			fn := top.AnonFuncs[0]
+			var stores []ssa.Instruction
+			core.Instrs(fn, false, func(in ssa.Instruction) {
+				if st, ok := in.(*ssa.Store); ok {
+					if fa, ok := st.Addr.(*ssa.FieldAddr); ok {
+						if tn, f := structFieldOf(fa); tn == "StorageCapabilityControllerValue" && f == "TargetPath" {
+							stores = append(stores, in)
+						}
+					}
+				}
+			})
+			isWriteBack := func(in ssa.Instruction) bool {
+				c, ok := in.(ssa.CallInstruction)
+				if !ok {
+					return false
+				}
+				if c.Common().Method == nil || c.Common().Method.Name() != "WriteStored" {
+					if o := core.Callee(c); o == nil || o.Name() != "WriteStored" {
+						return false
+					}
+				}
+				// the value written is the controller, and a store of the new target precedes the call
+				args := c.Common().Args
+				if len(args) == 0 {
+					return false
+				}
+				if _, tn := core.TypeName(core.Unwrap(args[len(args)-1]).Type()); tn != "StorageCapabilityControllerValue" {
+					return false
+				}
+				for _, st := range stores {
+					if core.Dominates(st, in) {
+						return true
+					}
+				}
+				return false
+			}
+			ok := len(core.Returns(fn)) > 0
+			for _, ret := range core.Returns(fn) {
+				if !core.MustPass(ret, isWriteBack) {
+					ok = false
+				}
+			}
+			r.Check(ok, "R5.persist", core.SSAKey(top)+": retargeted controller written back", fn.Pos(), "TargetPath is assigned and the controller is written to storage on every returning path",
+				"retarget updates the path index but does not write the controller with its new target back to storage: once the controller map is not inlined in the account's root slab the new target is lost on commit (target() reports the old path, delete() hits an internal error)")
+		}
+	}
+	r.Floor("R5.persist", 1)
 }
 
 // operandOrigins: ORIGIN engine as a pinned census — for every call of the selected callees, the data-flow origin leaves of
